@@ -169,6 +169,7 @@ func storeProof(st *store.Store, version uint64, key, val []byte, membership boo
 		if e != nil {
 			return errKind(e)
 		}
+		defer ro.Discard() // releases the read-only store's database snapshot (the database is closed and re-opened later)
 		roRoot, e := ro.Root()
 		if e != nil {
 			return errKind(e)
